@@ -123,4 +123,12 @@ def programs(tier):
     add("constructor-pattern-across-files", "one-file-control", opt2 + shows + MAINH + body + MAINT, want)
     add("constructor-pattern-across-files", "let-and-closure-parameter-named-like-nothing", "fn g(o: Opt) -> int32 { let k = |Nonx: int32| Nonx + 1; match o { Non => k(1), Som(Nonx) => k(Nonx) } }\n" + MAINH +
         "    let _ = string_println(int32_to_string(g(Non)) + int32_to_string(g(Som(4))));\n" + MAINT, ["25"], extra={"types.gom": opt2})
+    # ---- two parameters of one function / method with the same name (both were mapped to one local: `func f(x__1 int32, x__1 int32)`)
+    call = MAINH + "    let _ = string_println(int32_to_string(f(1, 2)));\n" + MAINT
+    add("duplicate-parameter", "function", "fn f(x: int32, x: int32) -> int32 { x }\n" + call, [], expect="reject")
+    add("duplicate-parameter", "function:first-and-third", "fn f3(x: int32, y: int32, x: int32) -> int32 { x + y }\n" + MAINH + "    let _ = string_println(int32_to_string(f3(1, 2, 3)));\n" + MAINT, [], expect="reject")
+    add("duplicate-parameter", "function:different-types", "fn f(x: int32, x: string) -> string { x }\n" + MAINH + "    let _ = string_println(f(1, \"s\"));\n" + MAINT, [], expect="reject")
+    add("duplicate-parameter", "method", "struct S { a: int32 }\nimpl S { fn m(self: S, k: int32, k: int32) -> int32 { k } }\n" + MAINH + "    let _ = string_println(int32_to_string(S { a: 1 }.m(5, 6)));\n" + MAINT, [], expect="reject")
+    add("duplicate-parameter", "generic-function", "fn g[T](x: T, x: T) -> T { x }\n" + MAINH + "    let _ = string_println(int32_to_string(g(1, 2)));\n" + MAINT, [], expect="reject")
+    add("duplicate-parameter", "distinct-names:control", "fn f(x: int32, y: int32) -> int32 { x - y }\n" + call, ["-1"])
     return out
